@@ -119,20 +119,219 @@ def replay_index(ctx, plans, label, nproc=4):
     ctx.add_traces(len(plans))
     ctx.log("replayed %d plans / %d calls (%s): %d differ" % (len(plans), sum(len(p) for p in plans), label, bad))
 
+
+# ------------------------------------------------------------------ file-info
+XZSEEN = set()
+CHECKNAME = {0: "None", 1: "CRC32", 4: "CRC64", 10: "SHA-256"}
+
+def make_files(ctx, nfiles, ndamaged):
+    rng = ctx.rng
+    items = []
+    for n in range(nfiles + ndamaged):
+        dmg = n >= nfiles
+        small = dmg or rng.random() < 0.45
+        ns = rng.choice([1, 1, 2, 2, 3, 4]) if not dmg else rng.choice([1, 2])
+        streams = []
+        for _ in range(ns):
+            size = rng.choice([0, 1, 17, 300] if small else [0, 1, 300, 5000, 20000, 70000])
+            bs = rng.choice([None, None, 4096, 16384]) if size > 4096 else rng.choice([None, 4096])
+            pad = rng.choice([0, 0, 4, 8, 100] if small else [0, 0, 4, 8, 100, 8192 - 12, 8192, 8196, 12000, 20000])
+            streams.append(dict(n=size, kind=rng.choice(["text", "rand", "zeros", "periodic"]), seed=rng.randrange(1 << 30),
+                                check=rng.choice([0, 1, 4, 10]), preset=rng.choice([0, 1]), block_size=bs, pad=pad))
+        it = dict(id=n, streams=streams, seed=rng.randrange(1 << 30), path=os.path.join(ctx.workdir, "fi_%d.xz" % n))
+        if dmg:
+            it["damage"] = dict(kind=rng.choice(["backward", "unpadded"]), stream=rng.randrange(ns), delta=rng.choice([4, 8, -4]))
+        items.append(it)
+    return items
+
+def eval_histories(ctx, hists, label):
+    path = os.path.join(ctx.workdir, "eval_%s.ndjson" % label)
+    with open(path, "w") as f:
+        for h in hists:
+            f.write(json.dumps(h) + "\n")
+    r = tlc.run("EvalIndex", workers=1, timeout=900, env={"PLANS": path})
+    ctx.add_tlc("EvalIndex(%s)" % label, r)
+    plans = plans_from_tlc(r.out)
+    if len(plans) != len(hists):
+        raise MachineryError("EvalIndex produced %d predictions for %d histories\n%s" % (len(plans), len(hists), r.out[-2000:]))
+    return plans
+
+def xz_list(ctx, item, obs, size):
+    """Compare `xz --list --robot -vv` with the model's prediction of the file's index."""
+    from harness.pydrv.c13_index import big
+    xz = build.cli()["xz"]
+    e = dict(os.environ); e.pop("LD_PRELOAD", None)
+    r = subprocess.run([xz, "--list", "--robot", "-vv", item["path"]], stdout=subprocess.PIPE, stderr=subprocess.STDOUT,
+                       text=True, env=e, timeout=120)
+    def bad(what, detail):
+        if what in XZSEEN:
+            return
+        XZSEEN.add(what)
+        ctx.violation("xzlist:" + what, "%s (file of %d streams)\n%s" % (detail, len(item["streams"]), r.stdout[:1500]),
+                      dict(kind="xz_list", item={k: v for k, v in item.items() if k != "obs"}))
+    if r.returncode != 0:
+        return bad("exit", "xz --list exit code %d" % r.returncode)
+    rows = [l.split("\t") for l in r.stdout.splitlines()]
+    frow = [x for x in rows if x[0] == "file"]; srows = [x for x in rows if x[0] == "stream"]; brows = [x for x in rows if x[0] == "block"]
+    st = obs["st"]; bl = obs["bl"]
+    names = sorted(CHECKNAME.get(c, "?") for c in range(16) if obs["checks"] >> c & 1)
+    want = [obs["streams"], obs["blocks"], size, big(obs["usize"]), sum(big(s["pad"]) for s in st)]
+    got = [int(frow[0][k]) for k in (1, 2, 3, 4, 7)] if frow else None
+    if got != want:
+        return bad("file", "file line %s, model %s" % (got, want))
+    if sorted(x.strip() for x in frow[0][6].split(",")) != names:
+        return bad("checks", "checks %s, model %s" % (frow[0][6], names))
+    if len(srows) != len(st) or len(brows) != len(bl):
+        return bad("count", "%d stream / %d block lines, model %d / %d" % (len(srows), len(brows), len(st), len(bl)))
+    for row, s in zip(srows, st):
+        want = [s["number"], s["blocks"], big(s["coff"]), big(s["uoff"]), big(s["csize"]), big(s["usize"]), big(s["pad"])]
+        got = [int(row[k]) for k in (1, 2, 3, 4, 5, 6, 9)]
+        if got != want or row[8] != CHECKNAME[s["flags"]["check"]]:
+            return bad("stream", "stream line %s %s, model %s %s" % (got, row[8], want, CHECKNAME[s["flags"]["check"]]))
+    for row, b in zip(brows, bl):
+        want = [b["s"], b["nstream"], b["nfile"], big(b["cfoff"]), big(b["ufoff"]), big(b["total"]), big(b["usize"])]
+        got = [int(row[k]) for k in (1, 2, 3, 4, 5, 6, 7)]
+        if got != want:
+            return bad("block", "block line %s, model %s" % (got, want))
+
+def file_info(ctx, nfiles, ndamaged, budget_events):
+    from lib import tracev
+    items = make_files(ctx, nfiles, ndamaged)
+    built = run_workers(ctx, "fi_build", items, 4, "fibuild")
+    for i, r in built:
+        if "key" in r:
+            raise MachineryError("building file %d failed: %s" % (i, r))
+        items[i]["built"] = r
+    valid = [it for it in items if "damage" not in it]
+    plans = eval_histories(ctx, [it["built"]["history"] for it in valid], "files")
+    for it, p in zip(valid, plans):
+        obs = [o for k, o in p[-1]["obs"] if k == 1]
+        if not obs or not obs[0]["small"] and False:
+            raise MachineryError("no prediction for file %d" % it["id"])
+        it["obs"] = obs[0]
+        if big_(it["obs"]["fsize"]) != it["built"]["size"]:
+            # the model's file size of the concatenated index must be the size of the file the encoder produced
+            ctx.violation("fileinfo:model_file_size", "model %d, file %d" % (big_(it["obs"]["fsize"]), it["built"]["size"]),
+                          dict(kind="file", item=it["streams"]))
+    # read sizes per file within the event budget
+    spent = 0
+    for it in items:
+        size = it["built"]["size"]
+        reads = [8192, size, 0]
+        if "damage" in it:
+            reads = [8192, size]
+        else:
+            for rs in (7, 1):
+                if spent + size // rs < budget_events and size // rs < budget_events // 6:
+                    reads.append(rs); spent += size // rs
+        it["reads"] = reads
+    runs = run_workers(ctx, "fi_run", [{k: v for k, v in it.items() if k != "built"} | dict(layout=it["built"]["layout"]) for it in items], 4, "firun")
+    hists = []; seen = set(); nblocks = 0
+    for i, r in runs:
+        it = items[i]
+        if "key" in r:       # crash of the library while this file was decoded
+            ctx.violation("fileinfo:crash", r["detail"], dict(kind="file", item=it["streams"], damage=it.get("damage")))
+            continue
+        nblocks += r["blocks"]
+        for key, detail in r["problems"]:
+            if key not in seen:
+                seen.add(key)
+                ctx.violation(key, detail, dict(kind="file", item=it["streams"], damage=it.get("damage")))
+        for t in r["traces"]:
+            ctx.case(key=("fileinfo", json.dumps(it["streams"]), json.dumps(it.get("damage")), t["rs"]))
+            if "damage" not in it and t["ret"] != "STREAM_END":
+                ctx.violation("fileinfo:ret:" + t["ret"], "valid file, read size %d: %s" % (t["rs"], t["ret"]),
+                              dict(kind="file", item=it["streams"], events=t["events"][-5:]))
+            hists.append(("file%d%s/rs%d" % (it["id"], "dmg" if "damage" in it else "", t["rs"]), t["events"]))
+    nev = sum(len(e) for _, e in hists)
+    rej = tracev.validate(ctx, "TraceFileInfo", hists,
+                          lambda label, e, i: "trace:fileinfo:%s:%s" % ("damaged" if "dmg" in label else "valid", e.get("ret", e.get("e"))))
+    ctx.sample(dict(kind="fileinfo_trace", label=hists[0][0], events=hists[0][1][:12]))
+    for it in valid:
+        xz_list(ctx, it, it["obs"], it["built"]["size"])
+        ctx.case(key=("xzlist", json.dumps(it["streams"])))
+    ctx.log("file-info: %d files (%d damaged), %d decodes / %d calls validated by TraceFileInfo (rejected %d), %d Blocks decoded "
+            "at index offsets, %d xz --list comparisons" % (len(items), ndamaged, len(hists), nev, rej, nblocks, len(valid)))
+    return [p for p in plans]
+
+def big_(x):
+    return x[0] + (x[1] << 21) + (x[2] << 42)
+
+def bug_variants(ctx):
+    """Non-vacuity of the contract: the model of index.c as it was in the pinned tree (one deviation switched on at
+    a time) must violate the matching invariant of IndexContract."""
+    base = open(os.path.join(HERE, "spec", "MCIndex.cfg")).read()
+    expect = {"BugDupChecks": {"InvChecks", "InvOps", "InvDup"}, "BugIterEmpty": {"InvIterNext"}, "BugAppendTotal": {"InvValid", "InvOps"}}
+    for flag, invs in expect.items():
+        cfg = os.path.join(ctx.workdir, "MCIndex_%s.cfg" % flag)
+        with open(cfg, "w") as f:
+            f.write(base.replace(flag + " = FALSE", flag + " = TRUE"))
+        r = tlc.run("MCIndex", cfg=cfg, workers=4, timeout=300)
+        ctx.add_tlc("MCIndex(%s)" % flag, r, expect_violation=True)
+        if r.violation not in invs:
+            raise MachineryError("IndexContract does not reject the %s behaviour (got %s)\n%s" % (flag, r.violation, r.out[-1500:]))
+        ctx.log("MCIndex with %s=TRUE violates %s as it must (%d states)" % (flag, r.violation, r.distinct))
+
+def model_checks(ctx):
+    q = ctx.quick
+    out = []
+    for name, mod, cfg, to in (("MCIndex", "MCIndex", "MCIndex.cfg" if q else "MCIndexT.cfg", 300 if q else 1500),
+                               ("MCFileInfo", "MCFileInfo", "MCFileInfo.cfg" if q else "MCFileInfoT.cfg", 300 if q else 900),
+                               ("MCFileInfo(damaged)", "MCFileInfo", "MCFileInfoDmg.cfg" if q else "MCFileInfoDmgT.cfg", 300 if q else 900)):
+        r = tlc.run(mod, cfg=cfg, workers=4, timeout=to)
+        out.append((name, r))
+    return out
+
+def generate_plans(ctx):
+    q = ctx.quick
+    jobs = []
+    for n in range(4):
+        jobs.append(("walks", dict(cfg="GenIndexSim.cfg", simulate=120 if q else 1200, depth=16)))
+    for n in range(2):
+        jobs.append(("volume", dict(cfg="GenIndexVol.cfg", simulate=10 if q else 60, depth=12)))
+    jobs.append(("bfs", dict(cfg="GenIndexBfs.cfg" if q else "GenIndexBfsT.cfg")))
+    seeds = [ctx.rng.randrange(1, 1 << 30) for _ in jobs]
+    def one(a):
+        (label, kw), seed = a
+        if "simulate" in kw:
+            kw = dict(kw, seed=seed)
+        return label, tlc.run("GenIndex", workers=1, timeout=1500, **kw)
+    with concurrent.futures.ThreadPoolExecutor(len(jobs)) as ex:
+        rs = list(ex.map(one, zip(jobs, seeds)))
+    return rs
+
 def run(ctx):
     q = ctx.quick
-    # (M) index
-    r = tlc.run("MCIndex", cfg="MCIndex.cfg" if q else "MCIndexT.cfg", workers=4, timeout=240 if q else 1500)
-    ctx.add_tlc("MCIndex", r, exhaustive=True)
-    if r.violation:
-        ctx.violation("model:index:" + r.violation, r.out[-4000:], dict(kind="tlc_counterexample"))
-    ctx.log("MCIndex:", r.summary())
+    # (M) and plan generation run side by side (4 + 7 JVMs)
+    with concurrent.futures.ThreadPoolExecutor(2) as ex:
+        fm = ex.submit(model_checks, ctx)
+        fg = ex.submit(generate_plans, ctx)
+        mc = fm.result(); gen = fg.result()
+    for name, r in mc:
+        ctx.add_tlc(name, r, exhaustive=True)
+        if r.violation:
+            ctx.violation("model:%s:%s" % (name, r.violation), r.out[-4000:], dict(kind="tlc_counterexample"))
+        ctx.log(name + ":", r.summary())
+    bug_variants(ctx)
     # (R) index histories
-    plans = gen_walks(ctx, 4, 120 if q else 1500, 12)
-    if len(plans) < 100:
-        raise MachineryError("plan generation produced only %d plans" % len(plans))
-    ctx.sample(dict(kind="index_plan", ops=plan_ops(plans[0])))
-    replay_index(ctx, plans, "walks")
+    groups = {}
+    for label, r in gen:
+        ctx.add_tlc("GenIndex(%s)" % label, r, exhaustive=(label == "bfs") or None)
+        groups.setdefault(label, []).extend(plans_from_tlc(r.out))
+    if len(groups.get("walks", [])) < 100 or len(groups.get("bfs", [])) < 1000 or len(groups.get("volume", [])) < 10:
+        raise MachineryError("plan generation produced too few plans: %s" % {k: len(v) for k, v in groups.items()})
+    ctx.sample(dict(kind="index_plan", ops=plan_ops(groups["walks"][0])))
+    ctx.sample(dict(kind="index_volume_plan", ops=plan_ops(groups["volume"][0])))
+    for label in ("bfs", "walks", "volume"):
+        replay_index(ctx, groups[label], label)
+    # (V) file-info
+    fplans = file_info(ctx, 24 if q else 160, 6 if q else 40, 12000 if q else 120000)
+    replay_index(ctx, fplans, "fileindexes")
+    ctx.assumptions += [
+        "LP64 structure sizes in Index!MemUsage (checked against lzma_index_memusage(1,0) = 408 at start-up)",
+        "the Backward Size limit (2^34) of append/cat needs > 9e8 Records and is transcribed but not reachable here",
+        "decoding garbage as an Index / Stream Header fails (FileInfo!Case IDEC/HDEC); consumed bytes of failing calls are not compared",
+        "memory-allocation failures of the index functions are not injected (C10/C09 cover allocator behaviour)"]
     return ctx.finish(rule="evaluations = call histories generated by TLC and replayed (distinct by call sequence) + "
-                      "file-info decodes (distinct by file layout x read size); all have >= 1 call",
-                      trusted=["TLC", "gcc ASan/UBSan", "ctypes driver", "zlib.crc32"])
+                      "file-info decodes (distinct by file layout x read size) + xz --list comparisons; all have >= 1 call",
+                      trusted=["TLC", "gcc ASan/UBSan", "ctypes driver", "zlib.crc32", "the .xz parser in c13_fileinfo.py (format document)"])
